@@ -122,11 +122,11 @@ class FixedEncoding(NumberEncoding):
         _decode = self._decode
 
         for _ in xrange(n):
-            yield _decode(f.read(self.size))
+            yield _decode(f.read(self.size))[0]
 
     def get(self, f, pos, i):
         f.seek(pos + i * self.size)
-        return self._decode(f.read(self.size))
+        return self._decode(f.read(self.size))[0]
 
 
 class ByteEncoding(FixedEncoding):
